@@ -5,4 +5,5 @@ open Proofs.C15 TunnelModel.Generated
   for a in violations accessTable do IO.println s!"DISCIPLINE {showAccess a}"
   for a in blockingViolations accessTable do IO.println s!"BLOCKING-UNDER-LOOP-LOCK {showAccess a}"
   for a in loopSendViolations accessTable do IO.println s!"SEND-ON-RECEIVE-LOOP {showAccess a}"
+  for a in lockedWaitViolations accessTable do IO.println s!"WAIT-WITH-LOCK-HELD {showAccess a}"
   if !acyclic lockOrderEdges then IO.println s!"LOCK-ORDER-CYCLE {lockOrderEdges}"
